@@ -10,10 +10,10 @@ def main():
     cfg = P.load_config()
     files, units = P.load_overlays()
     try:
-        ext, active = P.run_extractor(flavour, cfg, files, units)
+        ext, active, text, meta, gen, res, weak, bare = P.full_run(flavour, cfg, files, units)
     except P.Undecided as e:
         print('UNDECIDED(extract):', e); sys.exit(2)
-    text, meta, gen, res, weak = P.verify_with_auto_weak(flavour, cfg, files, active, ext, 40, 0)
+    if bare: print('BARE', bare)
     print('generated', gen, len(text.split('\n')), 'lines; units', len(meta['units']), 'obls', len(meta['obls']))
     if weak: print('AUTO-WEAK', weak)
     for fo in ext['files'].values():
